@@ -57,7 +57,7 @@ def spec_term(case, ob) -> str:
         tw = ob.get("twin") or {"timeout": True}
         return f"(STwin {obs_term(tw, asm.asmobs_term)} {C.cbool(sp.get('labels', False))})"
     tr = ob.get("trace")
-    if tr is None:
+    if not isinstance(tr, dict):     # no trace (or a driver failure, whose "trace" is a traceback text)
         return "SNone"
     if t == "trace":
         labels = [(r[0], r[2]) for r in tr["pass1"] if r[1] in ("LabelNode", "BinaryNode") and r[4] is not None]
